@@ -110,7 +110,7 @@ class Gen:
 
     def stmt(self, ind, vars_, depth):
         r = self.rng
-        k = r.randrange(14) if depth < 3 else r.randrange(3)
+        k = r.randrange(16) if depth < 3 else r.randrange(3)
         if k <= 1 or not vars_:
             self.assign(ind, vars_)
         elif k == 2:
@@ -199,7 +199,42 @@ class Gen:
                 self.features.add("imported")
                 call = r.choice(["answer()", "make_pair(1)", "pick(cb)", "Box().get()"])
                 self.emit(ind, f"reveal_type(c10lib.{call})")
-        elif k == 10 and r.random() < 0.3:
+        elif k == 10 and r.random() < 0.35:
+            # set displays: the runtime set has no order, the text derived from it must
+            self.features.add("setlit")
+            v = r.choice(vars_)
+            elems = r.sample(["'a'", "'b'", "'cc'", "'dd'", "'e'", "None", "b'x'", "b'yy'", "1", "2.5", "'zeta'", "'omega'", "(1, 'a')", "True"], r.randrange(2, 7))
+            disp = "{" + ", ".join(elems) + "}"
+            form = r.randrange(6)
+            if form == 0:
+                self.emit(ind, f"if {v} in {disp}:")
+                self.emit(ind + 1, f"reveal_type({v})")
+            elif form == 1:
+                t = r.choice(NAMES[:10])
+                self.emit(ind, f"for {t} in {disp}:")
+                self.emit(ind + 1, f"reveal_type({t})")
+                if t not in vars_:
+                    vars_.append(t)
+            elif form == 2:
+                self.emit(ind, f"reveal_type({disp})")
+            elif form == 3:
+                self.emit(ind, f"reveal_type(frozenset({disp}))")
+            elif form == 4:
+                self.emit(ind, f"if {v} not in {disp}: reveal_type({v})")
+            else:
+                self.emit(ind, f"helper({disp}, zz={disp})")
+        elif k == 10 and r.random() < 0.45:
+            # a plain string that looks like an f-string: every name is looked up (and marked
+            # as used) until the first unknown one
+            self.features.add("missing_f")
+            names = r.sample(vars_, min(len(vars_), r.randrange(1, 4))) + r.sample(["zzz_undefined", "qq_undefined"], r.randrange(0, 2))
+            r.shuffle(names)
+            fresh = r.choice(NAMES[:10]) + "_u"
+            self.emit(ind, f"{fresh} = {r.choice(LITS[:8])}")
+            names.insert(r.randrange(0, len(names) + 1), fresh)
+            text = " ".join("{" + n + "}" for n in names)
+            self.emit(ind, f"print({text!r})")
+        elif k == 10 and r.random() < 0.5:
             self.features.add("format")
             keys = r.sample(NAMES, r.randrange(2, 6))
             given = r.sample(keys, r.randrange(0, len(keys)))
@@ -215,6 +250,25 @@ class Gen:
             v = r.choice(vars_)
             kws = r.sample(NAMES, r.randrange(0, 5))
             self.emit(ind, f"helper({v}, " + ", ".join(f"{k}=1" for k in kws) + ")")
+        elif k >= 14:
+            # a condition stored in a variable and reused, nested and negated, in several tests:
+            # the constraint objects form a DAG that is applied / inverted repeatedly
+            self.features.add("condvar")
+            f1, f2 = r.sample(["ok", "flag", "good", "chk"], 2)
+            v = r.choice(vars_)
+            self.emit(ind, f"{f1} = {self.cond(vars_)}")
+            self.emit(ind, f"{f2} = {f1} {r.choice(['and', 'or'])} {self.simple_cond(v)}")
+            self.emit(ind, f"if {f1} and not {f2}:")
+            self.emit(ind + 1, f"reveal_type({v})")
+            self.emit(ind, f"elif {f2} or not {f1}:")
+            self.emit(ind + 1, f"reveal_type({v})")
+            self.emit(ind, f"if not ({f1} or {f2}) or ({f2} and {self.simple_cond(v)}):")
+            self.emit(ind + 1, f"reveal_type({v})")
+            self.emit(ind, f"assert {f1} or {f2}")
+            self.emit(ind, f"reveal_type({v})")
+            for f in (f1, f2):
+                if f not in vars_:
+                    vars_.append(f)
         elif k == 12:
             self.features.add("binop")
             a, b = r.choice(vars_), r.choice(vars_)
@@ -396,6 +450,8 @@ class Gen:
         self.emit(0, f"{gname}: {ann} = {chosen[0][1]}")
         c = self.fresh("cond")
         self.emit(0, f"def {c}() -> bool: return True")
+        mflag = r.choice(["ok", "flag"])
+        self.emit(0, f"{mflag} = isinstance({gname}, {chosen[0][0] if chosen[0][0] != 'None' else 'int'}) or {gname} is None")
         narrow_t = r.choice([t for t, _ in chosen if t != "None"] or ["int"])
         fn = self.fresh("glob")
         self.emit(0, f"def {fn}():")
@@ -405,6 +461,8 @@ class Gen:
         self.emit(1, f"reveal_type({gname})")
         self.emit(1, f"print({gname}.{r.choice(['upper', 'real', 'append', 'nope'])})")
         self.emit(1, f"if {c}() and isinstance({gname}, {narrow_t}): pass")
+        self.emit(1, f"if {mflag} and {c}(): reveal_type({gname})")
+        self.emit(1, f"if not {mflag} or {c}(): reveal_type({gname})")
         self.emit(1, f"return {gname}")
         outer = self.fresh("outer")
         pname = r.choice(GLOBAL_NAMES)
@@ -443,7 +501,11 @@ def gen_program(rng: random.Random):
     for _ in range(50):
         src, feats = g.program()
         try:
-            code = compile(src, "<gen>", "exec")
+            import warnings
+
+            with warnings.catch_warnings():
+                warnings.simplefilter("ignore")
+                code = compile(src, "<gen>", "exec")
         except SyntaxError:
             continue
         try:
